@@ -115,14 +115,27 @@ def gen_plan(rng, index, tier):
     tin = round(rng.uniform(lo, min(hi, lo + 0.3 * (hi - lo))), 2)
     npts = rng.randint(2, 8)
     path = [round(rng.uniform(lo, hi), 2) for _ in range(npts)]
-    path2 = [round(rng.uniform(lo, hi), 2) for _ in range(rng.randint(0, 3))] + [path[-1]]
+    path2 = [round(rng.uniform(lo, hi), 2) for _ in range(rng.randint(0, 3))]
     cfg = {"shape": shape, "material": mname, "fluidish": fluidish, "range": [lo, hi], "dims": dims, "Tinput": tin, "Thot": round(rng.uniform(lo, hi), 2)}
     steps = [{"op": "temp", "T": t} for t in path]
+    if rng.random() < 0.3:
+        # a fine ramp: many tiny temperature steps (converging thermal-hydraulic iterations look like this)
+        t0 = path[-1]
+        dt = rng.choice([0.004, 0.0007, 0.02])
+        n = rng.choice([50, 200])
+        up = 1.0 if t0 + n * dt < hi else -1.0
+        steps += [{"op": "temp", "T": round(t0 + up * dt * (j + 1), 6)} for j in range(n)]
+        path2_end = steps[-1]["T"]
+    else:
+        path2_end = path[-1]
     # hot / cold dimension assignments along the way
     for _ in range(rng.randint(0, 2)):
         steps.insert(rng.randrange(len(steps) + 1), {"op": "setdim", "pick": rng.randrange(100), "factor": rng.choice([0.97, 1.02, 1.1]), "cold": rng.random() < 0.5})
-    cfg["path2"] = path2
+    cfg["path2"] = path2 + [path2_end]
     cfg["linked"] = rng.random() < 0.6
+    if cfg["linked"] and rng.random() < 0.5:
+        # a hot (or cold) value assigned *through* the companion's link, keeping the link
+        steps.insert(rng.randrange(1, len(steps) + 1), {"op": "setdim_link", "factor": rng.choice([0.98, 1.03]), "cold": rng.random() < 0.4})
     return {"config": cfg, "steps": steps}
 
 
@@ -239,6 +252,26 @@ def execute(plan):
             temps.add(st["T"])
             log.add("temp", st["T"])
             check(f"step {k}")
+        elif st["op"] == "setdim_link":
+            if companion is None or fluidish:
+                continue
+            d = te_dims[0]
+            if st["cold"]:
+                newv = cold[d] * st["factor"]
+                companion.setDimension("id", newv, retainLink=True, cold=True)
+            else:
+                newv = float(c.getDimension(d)) * st["factor"]
+                companion.setDimension("id", newv, retainLink=True, cold=False)
+            got_t = float(c.getDimension(d, cold=st["cold"]))
+            got_l = float(companion.getDimension("id", cold=st["cold"]))
+            if not rel(got_t, newv) or not rel(got_l, newv):
+                fail("C03.setdim", f"step {k}: setDimension through the link ({'cold' if st['cold'] else 'hot'} value {newv}) reads back {got_l} on the linking component and {got_t} on the target", what="through-link")
+            cold[d] = float(c.getDimension(d, cold=True))
+            cold_changed = True
+            mph_ref[0] = mass_per_height(c) if nonzero else None
+            probes["dimension_assignments_through_link"] = probes.get("dimension_assignments_through_link", 0) + 1
+            log.add("setdim_link", st["factor"], st["cold"])
+            check(f"step {k} (after setDimension through the link)")
         else:
             if not te_dims:
                 continue
@@ -262,7 +295,7 @@ def execute(plan):
             log.add("setdim", d, st["factor"], st["cold"])
             check(f"step {k} (after setDimension)")
     # path independence: a fresh identical component taken along another path to the same end temperature
-    if not any(s["op"] == "setdim" for s in plan["steps"]):
+    if not any(s["op"] in ("setdim", "setdim_link") for s in plan["steps"]):
         c2 = build(cfg, "c2")
         c2.setTemperature(cfg["Tinput"])
         for t in cfg["path2"]:
